@@ -15,7 +15,12 @@ number of immediate events and of timers, fill of the four pools.
 -/
 namespace Percival.Driver.Upmodel
 open Percival.Driver Percival.Model Percival.Model.EvReg Percival.Model.AllocFail
-open Percival.Driver.Ds (sched rf showReq)
+open Percival.Driver.Ds (sched rf)
+
+/-- sizes of the requests made between two memory states, in order -/
+def showReq (m m' : Mem) : String :=
+  let l := (m'.log.take (m'.n - m.n)).reverse
+  if l.isEmpty then "req=-" else "req=" ++ ",".intercalate (l.map toString)
 open Percival.Model.Connect (AddrOutcome)
 
 def FDBASE : Nat := 64
